@@ -69,6 +69,10 @@ ANNOT_PROGRAMS = [
     "struct P { x: Int, name: String }\nenum Shape { Circle(Int), Square }\nfun mk(n: Int) {\n  let p = P{ x: n, name: \"a\" }\n  let sh = Circle(p.x)\n  let d = Dict[\"k\" => [p.x]]\n  let r = Ok(sh)\n  (p, d, r)\n}\nlet (a, b, c) = mk(1)\nprintln(string_repr(a.x))\n",
     "fun k(x: Int) {\n  let mul = fun(y: Int) { y * x }\n  let u = println(\"in k\")\n  let fl = 1.5 +. 2.0\n  let e = []\n  let n = None\n  mul(3)\n}\nprintln(string_repr(k(4)))\n",
     "fun g<T>(x: T, xs: List<T>) {\n  let ys = xs.append(x)\n  let first = ys.get(0)\n  let t = True && False\n  ys\n}\nprintln(string_repr(g(1, [2])))\nfun noret() { let z = 1 }\nnoret()\n",
+    # bodies whose last expression has branches of different types (no single annotation is right), in functions, closures and methods
+    "fun describe(verbose: Bool) {\n  if verbose {\n    1\n  } else {\n    \"none\"\n  }\n}\nprintln(string_repr(describe(True)))\nprintln(string_repr(describe(False)))\n",
+    "fun pick(o: Option<Int>) {\n  match o {\n    Some(v) => v\n    None => \"nothing\"\n  }\n}\nlet h = fun(b: Bool) { if b { [1] } else { 2.5 } }\nprintln(string_repr(pick(Some(1))))\nprintln(string_repr(pick(None)))\nprintln(string_repr(h(True)))\nprintln(string_repr(h(False)))\n",
+    "method flip(this: Bool) {\n  let r = if this { \"yes\" } else { 0 }\n  if this { r } else { (r, r) }\n}\nprintln(string_repr(True.flip()))\nprintln(string_repr(False.flip()))\nfun early(n: Int) {\n  if n > 1 { return \"big\" }\n  n\n}\nprintln(string_repr(early(1)))\nprintln(string_repr(early(2)))\n",
 ]
 BOUNDED.append(
     {"name": "annotation_corpus", "kind": "refactor-corpus", "props": ["C21"], "input": ANNOT_PROGRAMS, "n_inputs": len(ANNOT_PROGRAMS), "check_errors_not_more": True,
